@@ -1,10 +1,800 @@
+"""C17 time conversions: every representation denotes the same UTC instant; packed integers.
+
+pregen : translate time_from_timeint / date_from_dateint / datetime_from_time_and_date_integers from the
+         repo's CURRENT source into coq/Generated/TimeInt.v (fail-closed, see translate_timeint.py)
+run    : (1) exhaustive packed integers against the real code (all t in 0..235959; every day 1970..2100 as
+             yyyymmdd, every day 2000..2099 as yymmdd, invalid neighbours) -- correspondence with the
+             hand-written decoder of the model on EVERY integer, property oracle on every valid one;
+         (2) generated instants x offsets x representations through to_datetime_utc / to_datetime64 /
+             datetime_to_iso_time_string, compared with the extracted Coq model field by field and with the
+             instant the harness encoded (the property's own statement);
+         (3) heterogeneous sequences in every container; (4) malformed neighbours (both must reject).
+The implementation runs under TZ=VRF+03:30 (UTC-03:30, no tzdata needed).
+"""
 import os
+from datetime import datetime, timedelta, timezone
+
 import common as C
 import translate_timeint as TT
+
+US = timedelta(microseconds=1)
+EPOCH = datetime(1970, 1, 1)
+END_US = (datetime(2101, 1, 1) - EPOCH) // US          # instants 1970-01-01 .. 2100-12-31T23:59:59.999999
+UNIT_NS = {"ns": 1, "us": 10 ** 3, "ms": 10 ** 6, "s": 10 ** 9, "m": 60 * 10 ** 9, "h": 3600 * 10 ** 9,
+           "D": 86400 * 10 ** 9}
+
+RULE = ("packed integers: every t in 0..235959 and every calendar day 1970-01-01..2100-12-31 (yyyymmdd) / "
+        "2000-01-01..2099-12-31 (yymmdd) plus invalid neighbours, each counted once; conversion cases: "
+        "(instant, offset, representation, container) drawn from one PRNG, non-trivial = the representation "
+        "carries a non-zero offset, a fractional second, a calendar boundary or is a sequence; distinct by "
+        "the full input")
+ASSUMPTIONS = [
+    "datetime64 inputs denote whole seconds: np.datetime64 values with sub-second parts are floored by the code "
+    "(np.datetime64(x,'s')); DESIGN section 7 reads the property that way; such inputs are exercised and tallied "
+    "as 'dt64-subsecond' and compared with the model's floor",
+    "float epoch seconds: the instant is the float's exact value rounded half-even to microseconds (CPython); "
+    "the model is exact where the fraction has <= 39 bits (always for t >= 8192 s)",
+    "datetime.timestamp() float rounding in to_datetime64 is not modelled (int() of the exact value is)",
+    "fromisoformat accepts more spellings than the model's grammar (basic format, week dates, +HHMM); those are "
+    "checked against the encoded instant on the implementation only",
+]
+
 
 def pregen(ctx):
     text = TT.translate_repo(C.REPO)
     TT.write_if_changed(os.path.join(C.VERIF, TT.OUT_REL), text)
 
+
+# ---------------------------------------------------------------------------------------------
+# helpers
+# ---------------------------------------------------------------------------------------------
+
+def fields_of(us):
+    d = EPOCH + timedelta(microseconds=us)
+    return [d.year, d.month, d.day, d.hour, d.minute, d.second, d.microsecond]
+
+
+def instant_of(f):
+    return (datetime(*f) - EPOCH) // US
+
+
+def toks_fields(f):
+    return " ".join(str(v) for v in f)
+
+
+def toks_str(s):
+    return "str %d %s" % (len(s), " ".join(str(ord(ch)) for ch in s)) if s else "str 0"
+
+
+def model_repr(r):
+    k = r["k"]
+    if k == "none":
+        return "none"
+    if k == "aware":
+        return "aware %s %d" % (toks_fields(r["f"]), r["off"])
+    if k == "naive":
+        return "naive " + toks_fields(r["f"])
+    if k == "str":
+        return toks_str(r["s"])
+    if k == "int":
+        return "int %d" % r["v"]
+    if k == "float":
+        n, d = float.fromhex(r["hex"]).as_integer_ratio()
+        return "float %d %d" % (n, d.bit_length() - 1)
+    if k == "dt64":
+        return "dt64 %d %d" % (r["count"], UNIT_NS[r["unit"]])
+    if k == "seq":
+        return "seq %d %s" % (len(r["items"]), " ".join(model_repr(x) for x in r["items"]))
+    raise ValueError(k)
+
+
+def float_modelled(r):
+    """the model's fromtimestamp is exact when the float's fraction has at most 39 bits"""
+    if r["k"] == "float":
+        n, d = float.fromhex(r["hex"]).as_integer_ratio()
+        return d.bit_length() - 1 <= 39 and n.bit_length() <= 61
+    if r["k"] == "seq":
+        return all(float_modelled(x) for x in r["items"])
+    return True
+
+
+class Reader:
+    def __init__(self, toks):
+        self.t = toks
+        self.i = 0
+
+    def next(self):
+        v = self.t[self.i]
+        self.i += 1
+        return v
+
+
+def parse_res(rd):
+    """model reply of `utc` -> None | 'err' | dict(inst, f, off) | list"""
+    t = rd.next()
+    if t == "none":
+        return None
+    if t == "err":
+        return "err"
+    if t == "dt":
+        inst = rd.next()
+        f = [int(rd.next()) for _ in range(7)]
+        o = rd.next()
+        off = int(rd.next()) if o == "S" else None
+        return {"inst": None if inst == "naive" else int(inst), "f": f, "off": off}
+    if t == "seq":
+        n = int(rd.next())
+        return [parse_res(rd) for _ in range(n)]
+    raise C.Infra("model reply not understood: %r" % (rd.t[:12],))
+
+
+def parse_r64(rd):
+    t = rd.next()
+    if t == "none":
+        return None
+    if t == "err":
+        return "err"
+    if t == "ns":
+        return int(rd.next())
+    if t == "seq":
+        n = int(rd.next())
+        return [parse_r64(rd) for _ in range(n)]
+    raise C.Infra("model reply not understood: %r" % (rd.t[:12],))
+
+
+def impl_instant(e):
+    """encoded implementation datetime -> (instant_us or None, problem or None)"""
+    if not isinstance(e, dict) or "f" not in e:
+        return None, "not a datetime: %r" % (e,)
+    if e["off"] is None:
+        return None, "naive datetime returned"
+    if e["off"] != 0:
+        return None, "datetime is not in UTC (utcoffset %s us)" % e["off"]
+    try:
+        return instant_of(e["f"]), None
+    except Exception as ex:  # noqa
+        return None, "bad fields %r (%s)" % (e["f"], ex)
+
+
+# ---------------------------------------------------------------------------------------------
+# generators
+# ---------------------------------------------------------------------------------------------
+
+BOUNDARY_DATES = [(1970, 1, 1), (1970, 1, 2), (1972, 2, 29), (1972, 3, 1), (1999, 12, 31), (2000, 1, 1),
+                  (2000, 2, 28), (2000, 2, 29), (2000, 3, 1), (2000, 12, 31), (2001, 1, 1), (2022, 11, 9),
+                  (2024, 2, 29), (2024, 12, 31), (2038, 1, 19), (2038, 1, 20), (2099, 12, 31), (2100, 1, 1),
+                  (2100, 2, 28), (2100, 3, 1), (2100, 12, 31)]
+
+
+def gen_instant(rng):
+    """(instant_us, tag)"""
+    r = rng.random()
+    if r < 0.30:
+        y, m, d = rng.choice(BOUNDARY_DATES)
+        base = instant_of([y, m, d, 0, 0, 0, 0])
+        delta = rng.choice([0, 1, 999999, 10 ** 6, 86399 * 10 ** 6, 86400 * 10 ** 6 - 1, 43200 * 10 ** 6,
+                            -1, -10 ** 6, 500000, 3600 * 10 ** 6 * rng.randint(0, 23)])
+        i = base + delta
+        if 0 <= i < END_US:
+            return i, "boundary"
+    if r < 0.45:
+        # month / year ends
+        y = rng.randint(1970, 2100)
+        m = rng.randint(1, 12)
+        nxt = datetime(y + (m == 12), (m % 12) + 1, 1)
+        i = (nxt - EPOCH) // US - rng.choice([1, 10 ** 6, 1800 * 10 ** 6, 0, 500000])
+        return max(0, min(i, END_US - 1)), "month-end"
+    secs = rng.randrange(0, END_US // 10 ** 6)
+    r2 = rng.random()
+    if r2 < 0.35:
+        return secs * 10 ** 6, "whole-second"
+    if r2 < 0.55:
+        return secs * 10 ** 6 + rng.choice([1, 5, 499999, 500000, 500001, 999999, 100000, 123456, 250000, 15625]), "fraction-special"
+    return secs * 10 ** 6 + rng.randrange(1, 10 ** 6), "fraction"
+
+
+def gen_offset_min(rng):
+    r = rng.random()
+    if r < 0.15:
+        return 0
+    if r < 0.45:
+        return 60 * rng.randint(-12, 14)
+    if r < 0.70:
+        return rng.choice([-570, -210, -150, 210, 270, 330, 345, 390, 525, 570, 630, 765, 825, -720, 840])
+    return rng.randint(-720, 840)
+
+
+def fmt_zone(off_s):
+    sign = "-" if off_s < 0 else "+"
+    a = abs(off_s)
+    s = "%s%02d:%02d" % (sign, a // 3600, (a % 3600) // 60)
+    if a % 60:
+        s += ":%02d" % (a % 60)
+    return s
+
+
+def gen_scalar(rng, ctx=None, kinds=None, whole=False):
+    """one scalar representation of a generated instant -> (repr, expect, tags)
+    expect = ('inst', E) with E the instant the representation denotes."""
+    I, itag = gen_instant(rng)
+    if whole:
+        I -= I % 10 ** 6
+    kind = rng.choice(kinds or ["aware", "aware", "naive", "isoZ", "isoOff", "isoOff", "isoNaive", "int", "float",
+                                "dt64", "isoformat"])
+    tags = [itag, kind]
+    if kind == "aware":
+        off = gen_offset_min(rng) * 60
+        if rng.random() < 0.05:
+            off += rng.choice([-1, 1]) * rng.randint(1, 59)         # LMT style offsets with seconds
+        loc = I + off * 10 ** 6
+        if loc < 0:
+            loc += 86400 * 10 ** 6; I += 86400 * 10 ** 6
+        r = {"k": "aware", "f": fields_of(loc), "off": off, "cls": "pd" if rng.random() < 0.08 else "dt",
+             "tz": "utc" if off == 0 and rng.random() < 0.5 else "fixed"}
+        tags.append("off!=0" if off else "off=0")
+        return r, ("inst", I), tags
+    if kind == "naive":
+        return {"k": "naive", "f": fields_of(I), "cls": "pd" if rng.random() < 0.08 else "dt"}, ("inst", I), tags
+    if kind in ("isoZ", "isoOff", "isoNaive", "isoformat"):
+        if kind == "isoOff":
+            off = gen_offset_min(rng) * 60
+            if rng.random() < 0.05:
+                off += rng.choice([-1, 1]) * rng.randint(1, 59)
+        else:
+            off = 0
+        loc = I + off * 10 ** 6
+        if loc < 0:
+            loc += 86400 * 10 ** 6; I += 86400 * 10 ** 6
+        f = fields_of(loc)
+        us = f[6]
+        sep = "T" if rng.random() < 0.85 else " "
+        s = "%04d-%02d-%02d%s%02d:%02d:%02d" % (f[0], f[1], f[2], sep, f[3], f[4], f[5])
+        if kind == "isoformat":
+            # exactly datetime.isoformat(): fraction only when non-zero, +00:00 or naive
+            if us:
+                s += ".%06d" % us
+            if rng.random() < 0.5:
+                s += "+00:00"
+            tags.append("isoformat")
+            return {"k": "str", "s": s, "np": False}, ("inst", I), tags
+        fr = rng.random()
+        if us == 0 and fr < 0.5:
+            tags.append("frac:none")
+        elif us % 1000 == 0 and fr < 0.3:
+            s += (".%03d" % (us // 1000)); tags.append("frac:3")
+        elif us % 100000 == 0 and fr < 0.5:
+            s += (".%01d" % (us // 100000)); tags.append("frac:1")
+        elif fr < 0.12:
+            s += (",%06d" % us); tags.append("frac:comma")
+        elif fr < 0.22:
+            s += (".%06d%s" % (us, rng.choice(["000", "999", "5", "4999999"]))); tags.append("frac:>6")
+        else:
+            s += (".%06d" % us); tags.append("frac:6")
+        if kind == "isoZ":
+            s += "Z"
+        elif kind == "isoOff":
+            s += fmt_zone(off) if off or rng.random() < 0.7 else "-00:00"
+            tags.append("off!=0" if off else "off=0")
+        return {"k": "str", "s": s, "np": rng.random() < 0.05}, ("inst", I), tags
+    if kind == "int":
+        I -= I % 10 ** 6
+        return {"k": "int", "v": I // 10 ** 6, "np": rng.random() < 0.2}, ("inst", I), tags
+    if kind == "float":
+        if rng.random() < 0.3:
+            I -= I % 15625                       # exactly representable fraction (multiples of 2^-6 s)
+            tags.append("float:dyadic")
+        x = I / 10 ** 6                          # correctly rounded; |x - I/1e6| < 0.25 us for t < 2^32
+        return {"k": "float", "hex": x.hex(), "np": rng.random() < 0.2}, ("inst", I), tags
+    if kind == "dt64":
+        I -= I % 10 ** 6
+        secs = I // 10 ** 6
+        unit = rng.choice(["s", "s", "ns", "ns", "us", "ms"])
+        cands = [unit]
+        if secs % 60 == 0:
+            cands.append("m")
+        if secs % 3600 == 0:
+            cands.append("h")
+        if secs % 86400 == 0:
+            cands.append("D")
+        unit = rng.choice(cands)
+        return {"k": "dt64", "count": I * 1000 // UNIT_NS[unit], "unit": unit}, ("inst", I), tags
+    raise ValueError(kind)
+
+
+def gen_seq(rng, depth=0):
+    """a heterogeneous / homogeneous sequence -> (repr, expect, tags)"""
+    c = rng.choice(["list", "list", "tuple", "ndarray", "ndarray_obj", "dataarray", "dataarray_obj", "series",
+                    "series_obj"])
+    n = rng.choice([0, 1, 1, 2, 3, 3, 4, 6, 9])
+    items, exps = [], []
+    tags = ["seq:" + c, "len:%d" % min(n, 4)]
+    if c in ("ndarray", "dataarray", "series"):
+        kind = rng.choice(["dt64", "float", "int", "str"])
+        tags.append("native:" + kind)
+        for _ in range(n):
+            kk = {"dt64": ["dt64"], "float": ["float"], "int": ["int"],
+                  "str": ["isoZ", "isoOff", "isoNaive", "isoformat"]}[kind]
+            r, e, _t = gen_scalar(rng, kinds=kk)
+            if r["k"] in ("int", "float", "str"):
+                r["np"] = True                    # elements of a numpy array are numpy scalars
+            if r["k"] == "dt64":
+                r["unit_in_array"] = "ns"
+            items.append(r); exps.append(e)
+        if n == 0:
+            kind = "float"
+    else:
+        for _ in range(n):
+            q = rng.random()
+            if q < 0.08 and c in ("list", "tuple", "ndarray_obj"):
+                items.append({"k": "none"}); exps.append(("none",)); tags.append("has-none")
+            elif q < 0.14 and depth == 0 and c in ("list", "tuple"):
+                r, e, _t = gen_seq(rng, depth + 1)
+                items.append(r); exps.append(e); tags.append("nested")
+            else:
+                # xarray / pandas turn object arrays of datetimes into datetime64 (the whole-second path of
+                # the code), so datetimes inside those containers are generated at whole seconds
+                r, e, _t = gen_scalar(rng, whole=c in ("dataarray_obj", "series_obj"))
+                items.append(r); exps.append(e)
+    return {"k": "seq", "c": c, "items": items}, ("seq", exps), tags
+
+
+MALFORMED = [
+    "2022-13-01T00:00:00", "2022-00-10T00:00:00", "2022-11-31T00:00:00", "2022-02-29T00:00:00", "2100-02-29T00:00:00Z",
+    "2022-11-00T00:00:00", "2022-11-09T24:00:00", "2022-11-09T23:60:00", "2022-11-09T23:59:60", "2022-11-09T10:20:42.",
+    "2022-11-09T10:20:42.12a", "2022-11-09T10:20:42+24:00", "2022-11-09T10:20:42+5:30", "2022-11-09T10:20:42 ",
+    "2022-11-09T10:20:42+05:30 ", "0000-01-01T00:00:00", "2022-11-09T10:20:42z", "2022-11-09T10:20:42+00:00Z",
+    "2022/11/09T10:20:42", "2022-11-09T10-20-42", "", "Z", "2022-11-09T10:20:42.5+05:3", "2022-11-09T1a:20:42",
+    "2022-11-09T10:20:42*05:30", "2022-11-09T10:20:4", "20a2-11-09T10:20:42", "2022-11-09T10:20:42+05:30:6",
+]
+# well-formed spellings inside the model's grammar that sit next to the malformed ones
+WELLFORMED = [
+    ("2024-02-29T00:00:00", 2024, 2, 29, 0, 0, 0, 0, 0), ("2000-02-29T23:59:59.999999Z", 2000, 2, 29, 23, 59, 59, 999999, 0),
+    ("2022-11-09", 2022, 11, 9, 0, 0, 0, 0, 0), ("2022-11-09T10:20:42+23:59", 2022, 11, 9, 10, 20, 42, 0, 86340),
+    ("2022-11-09T10:20:42-23:59:59", 2022, 11, 9, 10, 20, 42, 0, -86399), ("2022-11-09T10:20:42+05:99", 2022, 11, 9, 10, 20, 42, 0, 5 * 3600 + 99 * 60),
+    ("2022-11-09T10:20:42.1234567890123Z", 2022, 11, 9, 10, 20, 42, 123456, 0), ("1970-01-01T00:00:00Z", 1970, 1, 1, 0, 0, 0, 0, 0),
+    ("2100-12-31T23:59:59.999999-12:00", 2100, 12, 31, 23, 59, 59, 999999, -43200), ("1970-01-01T14:00:00+14:00", 1970, 1, 1, 14, 0, 0, 0, 50400),
+]
+# ISO-8601 / isoformat spellings OUTSIDE the model's grammar: implementation-only oracle (known instant)
+def unmodelled_spellings(rng, I, off):
+    f = fields_of(I + off * 10 ** 6)
+    a = abs(off)
+    sg = "-" if off < 0 else "+"
+    out = []
+    if off % 60 == 0:
+        out.append(("basic", "%04d%02d%02dT%02d%02d%02d%s%02d%02d" % (f[0], f[1], f[2], f[3], f[4], f[5], sg, a // 3600, a % 3600 // 60), I - I % 10 ** 6))
+        out.append(("zone+HHMM", "%04d-%02d-%02dT%02d:%02d:%02d.%06d%s%02d%02d" % (f[0], f[1], f[2], f[3], f[4], f[5], f[6], sg, a // 3600, a % 3600 // 60), I))
+    if off % 3600 == 0:
+        out.append(("zone+HH", "%04d-%02d-%02dT%02d:%02d:%02d%s%02d" % (f[0], f[1], f[2], f[3], f[4], f[5], sg, a // 3600), I - I % 10 ** 6))
+    if off == 0:
+        out.append(("lower-t", "%04d-%02d-%02dt%02d:%02d:%02dZ" % (f[0], f[1], f[2], f[3], f[4], f[5]), I - I % 10 ** 6))
+        out.append(("no-seconds", "%04d-%02d-%02dT%02d:%02dZ" % (f[0], f[1], f[2], f[3], f[4]), I - I % (60 * 10 ** 6)))
+        out.append(("basicZ", "%04d%02d%02dT%02d%02d%02dZ" % (f[0], f[1], f[2], f[3], f[4], f[5]), I - I % 10 ** 6))
+    return out
+
+
+# ---------------------------------------------------------------------------------------------
+# comparison of one conversion case (also used by replay)
+# ---------------------------------------------------------------------------------------------
+
+def cmp_utc(ctx, desc_in, imp, mod, exp, path="", modelled=True):
+    """recursive: imp = encoded implementation value, mod = parsed model value, exp = expectation.
+    Reports through ctx; returns number of problems."""
+    bad = 0
+    kind = exp[0]
+    if kind == "seq":
+        if not (isinstance(imp, dict) and "seq" in imp):
+            ctx.oracle_fail("to_datetime_utc%s: a sequence input did not give a list (%r)" % (path, imp), desc_in)
+            return 1
+        if len(imp["seq"]) != len(exp[1]):
+            ctx.oracle_fail("to_datetime_utc%s: %d outputs for %d inputs" % (path, len(imp["seq"]), len(exp[1])), desc_in)
+            return 1
+        if modelled and (not isinstance(mod, list) or len(mod) != len(exp[1])):
+            ctx.disagree("model result shape differs at %s" % path, desc_in)
+            return 1
+        for j, e in enumerate(exp[1]):
+            bad += cmp_utc(ctx, desc_in, imp["seq"][j], mod[j] if modelled else None, e, "%s[%d]" % (path, j), modelled)
+        return bad
+    if kind == "none":
+        if imp is not None:
+            ctx.oracle_fail("to_datetime_utc%s: None did not map to None (%r)" % (path, imp), desc_in)
+            bad += 1
+        if modelled and mod is not None:
+            ctx.disagree("model: None did not map to None at %s" % path, desc_in)
+            bad += 1
+        return bad
+    E = exp[1]
+    got, prob = impl_instant(imp)
+    if prob:
+        ctx.oracle_fail("to_datetime_utc%s: %s; expected the UTC instant %s" % (path, prob, fields_of(E)), desc_in)
+        return 1
+    if got != E:
+        ctx.oracle_fail("to_datetime_utc%s returned %s (instant %d us) but the input denotes %s (instant %d us): off by %d us"
+                        % (path, imp["f"], got, fields_of(E), E, got - E), desc_in)
+        bad += 1
+    if modelled:
+        if not isinstance(mod, dict):
+            ctx.disagree("model result at %s is %r, implementation returned %s" % (path, mod, imp["f"]), desc_in)
+            return bad + 1
+        if mod["inst"] != got or mod["f"] != imp["f"] or mod["off"] != 0:
+            ctx.disagree("model %r != implementation %r at %s" % (mod, imp, path), desc_in, is_property_failure=(got != E))
+            bad += 1
+    return bad
+
+
+def floor_s(E):
+    return (E // 10 ** 6) * 10 ** 6
+
+
+def flat_expect(exp):
+    """to_datetime64 of a sequence works only for flat sequences of instants"""
+    if exp[0] == "inst":
+        return exp[1]
+    if exp[0] == "seq" and all(e[0] == "inst" for e in exp[1]):
+        return [e[1] for e in exp[1]]
+    return "err"
+
+
+def run_conversions(ctx, cases, loc):
+    """cases: list of dict(op, r, exp, tags[, modelled]) -> runs impl + model and compares"""
+    payload = [{"op": c["op"], "r": c["r"]} for c in cases]
+    mlines = []
+    for c in cases:
+        mop = {"utc": "utc", "to64": "to64", "iso": "iso", "iso_rt": "iso", "dt64_rt": "to64"}[c["op"]]
+        c["modelled"] = c.get("modelled", True) and float_modelled(c["r"])
+        mlines.append("%s %d %s" % (mop, loc, model_repr(c["r"])) if c["modelled"] else "days 0")
+    res = ctx.impl("C17.py", {"cases": payload})
+    imps = res["results"]
+    mods = ctx.model(mlines)
+    for c, im, mo in zip(cases, imps, mods):
+        check_case(ctx, c, im, mo)
+    return res
+
+
+def check_case(ctx, c, im, mo):
+    op, exp = c["op"], c["exp"]
+    desc_in = {"op": op, "repr": c["r"], "expected": exp, "TZ": "VRF+03:30", "model_reply": " ".join(mo)[:400],
+               "impl_reply": im}
+    modelled = c["modelled"]
+    for t in c["tags"]:
+        ctx.tally(t)
+    ctx.tally("op:" + op)
+    if not modelled:
+        ctx.tally("impl-only(float fraction > 39 bits or unmodelled spelling)")
+    nontriv = any(t in ("off!=0", "fraction", "fraction-special", "boundary", "month-end") or t.startswith("seq:") for t in c["tags"])
+    ctx.count([op, c["r"]], nontriv)
+    err = isinstance(im, dict) and "error" in im
+    if exp[0] == "err":
+        # malformed input: both sides must reject (the property does not speak about these)
+        # The property is silent here, so a difference is recorded in the evidence, never an alarm.
+        merr = mo[0] == "err"
+        if err != merr:
+            ctx.tally("malformed: implementation %s, model %s" % ("raises" if err else "accepts", "rejects" if merr else "accepts"))
+            ctx.notes.append("malformed string %r: implementation %s, model %s" % (c["r"].get("s"), "raises" if err else "accepts", "rejects" if merr else "accepts"))
+        return
+    if err:
+        ctx.oracle_fail("%s raised %s: %s" % (op, im["error"], im.get("msg")), desc_in)
+        return
+    if op == "utc":
+        mod = parse_res(Reader(mo)) if modelled else None
+        cmp_utc(ctx, desc_in, im["v"], mod, exp, "", modelled)
+        return
+    if op in ("to64", "dt64_rt"):
+        want = flat_expect(exp)
+        v = im["v64"] if op == "dt64_rt" else im["v"]
+        mod = parse_r64(Reader(mo)) if modelled else None
+        if exp[0] == "none":
+            if v is not None:
+                ctx.oracle_fail("to_datetime64(None) = %r" % (v,), desc_in)
+            return
+        if want == "err":
+            return    # nested / None inside: implementation raises (handled by `err` above) or anything
+        if isinstance(want, list):
+            got = v.get("arr") if isinstance(v, dict) else None
+            wns = [floor_s(E) * 1000 for E in want]
+            if got != wns or (want and v.get("dtype") != "datetime64[ns]"):
+                ctx.oracle_fail("to_datetime64: got %r (%s), whole seconds of the inputs are %r" % (got, v, wns), desc_in)
+            if modelled and mod != wns and mod != "err":
+                ctx.disagree("model to_datetime64 %r != expected %r" % (mod, wns), desc_in)
+            if modelled and got is not None and mod != got:
+                ctx.disagree("model to_datetime64 %r != implementation %r" % (mod, got), desc_in, is_property_failure=(got != wns))
+            if op == "dt64_rt":
+                back = im["v"]
+                if not (isinstance(back, dict) and "seq" in back and len(back["seq"]) == len(want)):
+                    ctx.oracle_fail("to_datetime_utc(to_datetime64(seq)) has the wrong shape: %r" % (back,), desc_in)
+                else:
+                    for j, E in enumerate(want):
+                        g, prob = impl_instant(back["seq"][j])
+                        if prob or g != floor_s(E):
+                            ctx.oracle_fail("datetime64 round trip [%d]: %s, expected %s" % (j, prob or back["seq"][j]["f"], fields_of(floor_s(E))), desc_in)
+            return
+        wns = floor_s(want) * 1000
+        got = v.get("ns") if isinstance(v, dict) else None
+        if got != wns or v.get("dtype") != "datetime64[ns]":
+            ctx.oracle_fail("to_datetime64 = %r, the whole second of the input is %d ns (%s)" % (v, wns, fields_of(floor_s(want))), desc_in)
+        if modelled and mod != got and got is not None:
+            ctx.disagree("model to_datetime64 %r != implementation %r" % (mod, got), desc_in, is_property_failure=(got != wns))
+        if op == "dt64_rt":
+            g, prob = impl_instant(im["v"])
+            if prob or g != floor_s(want):
+                ctx.oracle_fail("datetime64 round trip: %s, expected %s" % (prob or im["v"]["f"], fields_of(floor_s(want))), desc_in)
+        return
+    if op in ("iso", "iso_rt"):
+        s = im["s"] if op == "iso_rt" else im["v"]
+        if exp[0] == "none":
+            if s is not None:
+                ctx.oracle_fail("datetime_to_iso_time_string(None) = %r" % (s,), desc_in)
+            return
+        E = exp[1]
+        f = fields_of(E)
+        want = "%04d-%02d-%02dT%02d:%02d:%02d.%06dZ" % tuple(f)
+        if s != want:
+            ctx.oracle_fail("datetime_to_iso_time_string = %r, the instant is %r" % (s, want), desc_in)
+        if modelled:
+            ms = "".join(chr(int(x)) for x in mo[2:]) if mo[0] == "str" else mo[0]
+            if ms != s:
+                ctx.disagree("model ISO string %r != implementation %r" % (ms, s), desc_in, is_property_failure=(s != want))
+        if op == "iso_rt":
+            g, prob = impl_instant(im["v"])
+            if prob or g != E:
+                ctx.oracle_fail("ISO round trip: parse(format(x)) = %s, original instant %s" % (prob or im["v"]["f"], f), desc_in)
+
+
+# ---------------------------------------------------------------------------------------------
+# packed integers: exhaustive
+# ---------------------------------------------------------------------------------------------
+
+def valid_time_meaning(t):
+    """the time of day the packed integer t denotes (form decided by its magnitude), or None"""
+    if t >= 10000:
+        h, m, s = t // 10000, (t // 100) % 100, t % 100
+    elif t >= 100:
+        h, m, s = t // 100, t % 100, 0
+    else:
+        h, m, s = t, 0, 0
+    if h < 24 and m < 60 and s < 60:
+        return h, m, s
+    return None
+
+
+def run_packed(ctx):
+    # ---- times: every integer 0..235959
+    N = 236000
+    cases = [{"op": "timeints", "lo": 0, "hi": N}]
+    # ---- dates
+    dates = []      # (value, expected (y,m,d) or None, tag)
+    d = datetime(1970, 1, 1)
+    end = datetime(2101, 1, 1)
+    while d < end:
+        dates.append((d.year * 10000 + d.month * 100 + d.day, (d.year, d.month, d.day), "yyyymmdd"))
+        if 2000 <= d.year <= 2099:
+            dates.append(((d.year - 2000) * 10000 + d.month * 100 + d.day, (d.year, d.month, d.day), "yymmdd"))
+        d += timedelta(days=1)
+    import calendar
+    for y in range(1970, 2101):
+        for m in range(0, 14):
+            dim = calendar.monthrange(y, m)[1] if 1 <= m <= 12 else 31
+            for day in ([0, dim + 1, 32, 99] if 1 <= m <= 12 else [1, 15]):
+                dates.append((y * 10000 + m * 100 + day, None, "invalid-yyyymmdd"))
+                if 2000 <= y <= 2099:
+                    dates.append(((y - 2000) * 10000 + m * 100 + day, None, "invalid-yymmdd"))
+    cases.append({"op": "dateints", "vals": [v for v, _, _ in dates]})
+    # ---- date + time
+    rng = ctx.rng
+    pairs = []
+    valid_days = [x for x in dates if x[1] is not None]
+    for _ in range(ctx.n(3000, 60000)):
+        dv, ymd, tg = rng.choice(valid_days)
+        r = rng.random()
+        if r < 0.4:
+            t = rng.choice([0, 1, 23, 100, 101, 159, 2359, 10000, 10001, 10100, 235959, 235900, 230000, 120000, 1200, 12, 959, 1000, 9999 // 100 * 100 + 59])
+        else:
+            h, m, s = rng.randint(0, 23), rng.randint(0, 59), rng.randint(0, 59)
+            t = rng.choice([h, h * 100 + m, h * 10000 + m * 100 + s])
+        pairs.append((dv, t, ymd))
+    cases.append({"op": "packed", "pairs": [[a, b] for a, b, _ in pairs], "as64": False})
+    cases.append({"op": "packed", "pairs": [[a, b] for a, b, _ in pairs[:len(pairs) // 4]], "as64": True})
+    res = ctx.impl("C17.py", {"cases": cases})["results"]
+    for r_ in res:
+        if isinstance(r_, dict) and "error" in r_:
+            ctx.oracle_fail("packed integer runner failed: %r" % (r_,), {"op": "packed"})
+            return
+    mlines = ["timeint %d" % t for t in range(N)] + ["dateint %d" % v for v, _, _ in dates] + \
+             ["packed %d %d" % (a, b) for a, b, _ in pairs]
+    mods = ctx.model(mlines)
+    # times
+    nbad = 0
+    for t in range(N):
+        im = res[0][t]
+        mo = int(mods[t][0]) * 10 ** 6
+        mean = valid_time_meaning(t)
+        ctx.count("timeint-%d" % t, mean is not None)
+        rep = {"op": "time_from_timeint", "t": t, "impl_microseconds": im, "model_microseconds": mo,
+               "valid_meaning_hms": mean}
+        if mean is not None:
+            ctx.tally("timeint-valid:" + ("hhmmss" if t >= 10000 else "hhmm" if t >= 100 else "hh"))
+            want = (mean[0] * 3600 + mean[1] * 60 + mean[2]) * 10 ** 6
+            if im != want and nbad < 20:
+                nbad += 1
+                ctx.oracle_fail("time_from_timeint(%d) = %r us, but %d denotes %02d:%02d:%02d = %d us" % (t, im, t, mean[0], mean[1], mean[2], want), rep)
+        else:
+            ctx.tally("timeint-invalid-fields")
+        if im != mo and nbad < 20:
+            nbad += 1
+            ctx.disagree("time_from_timeint(%d): implementation %r us, model %r us" % (t, im, mo), rep,
+                         is_property_failure=False)
+    # dates
+    k0 = N
+    nbad = 0
+    for j, (v, ymd, tg) in enumerate(dates):
+        im = res[1][j]
+        mo = [int(x) for x in mods[k0 + j]]
+        ctx.count("dateint-%d" % v, ymd is not None)
+        ctx.tally("dateint-" + tg)
+        rep = {"op": "date_from_dateint", "t": v, "impl": im, "model_ymd": mo, "denotes": ymd}
+        if ymd is not None:
+            if isinstance(im, str):
+                if nbad < 20:
+                    nbad += 1
+                    ctx.oracle_fail("date_from_dateint(%d) raised %s; it denotes %04d-%02d-%02d" % ((v, im) + ymd), rep)
+                continue
+            g, prob = impl_instant(im)
+            want = instant_of(list(ymd) + [0, 0, 0, 0])
+            if (prob or g != want) and nbad < 20:
+                nbad += 1
+                ctx.oracle_fail("date_from_dateint(%d) = %s; it denotes %04d-%02d-%02dT00:00:00 UTC" % ((v, prob or im["f"]) + ymd), rep)
+            if tuple(mo) != ymd and nbad < 20:
+                nbad += 1
+                ctx.disagree("model date_from_dateint(%d) = %r, expected %r" % (v, mo, ymd), rep)
+            if not prob and im["f"][:3] != mo and nbad < 20:
+                nbad += 1
+                ctx.disagree("date_from_dateint(%d): implementation %r, model %r" % (v, im["f"][:3], mo), rep)
+        else:
+            # invalid calendar date: datetime() must raise (model: fields out of range)
+            if not isinstance(im, str):
+                # the implementation accepted: it must at least agree with the model's fields
+                if im["f"][:3] != mo and nbad < 20:
+                    nbad += 1
+                    ctx.disagree("date_from_dateint(%d) (invalid date): implementation %r, model fields %r" % (v, im["f"][:3], mo), rep)
+    # date + time
+    k1 = k0 + len(dates)
+    nbad = 0
+    for j, (dv, t, ymd) in enumerate(pairs):
+        im = res[2][j]
+        mo = mods[k1 + j]
+        mean = valid_time_meaning(t)
+        ctx.count("packed-%d-%d" % (dv, t), mean is not None)
+        ctx.tally("packed-datetime")
+        rep = {"op": "datetime_from_time_and_date_integers", "date_int": dv, "time_int": t, "impl": im,
+               "model": " ".join(mo), "denotes": [ymd, mean]}
+        if isinstance(im, str):
+            if nbad < 20:
+                nbad += 1
+                ctx.oracle_fail("datetime_from_time_and_date_integers(%d, %d) raised %s" % (dv, t, im), rep)
+            continue
+        g, prob = impl_instant(im)
+        if mean is not None:
+            want = instant_of(list(ymd) + list(mean) + [0])
+            if (prob or g != want) and nbad < 20:
+                nbad += 1
+                ctx.oracle_fail("datetime_from_time_and_date_integers(%d, %d) = %s; expected %s UTC" % (dv, t, prob or im["f"], fields_of(want)), rep)
+        mg = int(mo[1]) if mo[0] == "S" else None
+        if not prob and mg != g and nbad < 20:
+            nbad += 1
+            ctx.disagree("datetime_from_time_and_date_integers(%d, %d): implementation instant %r, model %r" % (dv, t, g, mg), rep)
+        if j < len(res[3]):
+            v64 = res[3][j]
+            ok = isinstance(v64, dict) and v64.get("dtype") == "datetime64[ns]" and not prob and v64.get("ns") == g * 1000
+            if not ok and nbad < 20:
+                nbad += 1
+                ctx.oracle_fail("datetime_from_time_and_date_integers(%d, %d, as_datetime64=True) = %r; expected %d ns" % (dv, t, v64, (g or 0) * 1000), rep)
+    ctx.sample({"packed": {"time_from_timeint(201813) us": res[0][201813], "model s": mods[201813][0],
+                           "date_from_dateint(%d)" % dates[0][0]: res[1][0]}})
+
+
+# ---------------------------------------------------------------------------------------------
+# run
+# ---------------------------------------------------------------------------------------------
+
+def fmt_crosscheck(ctx):
+    """the formatter of the model used in the string theorems equals Python's own isoformat()/strftime"""
+    rng = ctx.rng
+    lines, wants = [], []
+    for _ in range(ctx.n(300, 5000)):
+        I, _t = gen_instant(rng)
+        off = gen_offset_min(rng) * 60
+        loc = I + off * 10 ** 6
+        if loc < 0:
+            loc += 86400 * 10 ** 6
+        f = fields_of(loc)
+        zone = rng.choice(["zn", "zz", "zo"])
+        frac = f[6] != 0
+        d = datetime(*f)
+        if zone == "zn":
+            want = d.isoformat(); z = "zn"
+        elif zone == "zz":
+            want = d.isoformat() + "Z"; z = "zz"
+        else:
+            want = d.replace(tzinfo=timezone(timedelta(seconds=off))).isoformat()
+            z = "zo %s %d %d" % ("T" if off < 0 else "F", abs(off) // 3600, abs(off) % 3600 // 60)
+        lines.append("fmt 84 %s %s %s" % ("T" if frac else "F", toks_fields(f), z))
+        wants.append(want)
+    for ln, want, mo in zip(lines, wants, ctx.model(lines)):
+        got = "".join(chr(int(x)) for x in mo[2:])
+        ctx.count(["fmt", ln], True)
+        ctx.tally("fmt-crosscheck")
+        if got != want:
+            ctx.disagree("model fmt_iso_gen %r != Python isoformat %r" % (got, want), {"op": "fmt", "line": ln})
+
+
 def run(ctx):
-    pass
+    rng = ctx.rng
+    loc = -12600          # TZ=VRF+03:30 is UTC-03:30
+    run_packed(ctx)
+    cases = []
+    nsc = ctx.n(2500, 60000)
+    for i in range(nsc):
+        r, e, tags = gen_scalar(rng)
+        q = rng.random()
+        op = "utc" if q < 0.55 else ("dt64_rt" if q < 0.70 else ("iso_rt" if q < 0.9 else ("to64" if q < 0.95 else "iso")))
+        cases.append({"op": op, "r": r, "exp": e, "tags": tags})
+    for i in range(ctx.n(600, 15000)):
+        r, e, tags = gen_seq(rng)
+        q = rng.random()
+        op = "utc" if q < 0.7 else "dt64_rt"
+        if op == "dt64_rt" and flat_expect(e) == "err":
+            op = "utc"
+        cases.append({"op": op, "r": r, "exp": e, "tags": tags})
+    # None
+    for op in ("utc", "to64", "iso"):
+        cases.append({"op": op, "r": {"k": "none"}, "exp": ("none",), "tags": ["none"]})
+    # malformed / well-formed neighbours
+    for s in MALFORMED:
+        cases.append({"op": "utc", "r": {"k": "str", "s": s, "np": False}, "exp": ("err",), "tags": ["malformed"]})
+    for w in WELLFORMED:
+        E = instant_of(list(w[1:8])) - w[8] * 10 ** 6
+        cases.append({"op": "utc", "r": {"k": "str", "s": w[0], "np": False}, "exp": ("inst", E), "tags": ["wellformed-neighbour", "boundary"]})
+    # datetime64 with sub-second parts: floored by the code (see ASSUMPTIONS); model comparison only
+    for i in range(ctx.n(60, 1500)):
+        I, _t = gen_instant(rng)
+        unit = rng.choice(["ns", "us", "ms"])
+        cnt = I * 1000 // UNIT_NS[unit]
+        if unit == "ns":
+            cnt += rng.randint(0, 999)
+        cases.append({"op": "utc", "r": {"k": "dt64", "count": cnt, "unit": unit}, "exp": ("inst", floor_s(I)),
+                      "tags": ["dt64-subsecond(floored by the code, DESIGN 7)"]})
+    # spellings outside the model's grammar: implementation-only
+    for i in range(ctx.n(80, 2000)):
+        I, _t = gen_instant(rng)
+        off = gen_offset_min(rng) * 60
+        if I + off * 10 ** 6 < 0:
+            I += 86400 * 10 ** 6
+        for tag, s, E in unmodelled_spellings(rng, I, off):
+            cases.append({"op": "utc", "r": {"k": "str", "s": s, "np": False}, "exp": ("inst", E),
+                          "tags": ["spelling:" + tag], "modelled": False})
+    res = run_conversions(ctx, cases, loc)
+    if res.get("tz", [None, None])[1] != 12600:
+        raise C.Infra("the implementation did not run under TZ=VRF+03:30: %r" % (res.get("tz"),))
+    ctx.sample({"conversion": {"repr": cases[0]["r"], "expected_instant_us": cases[0]["exp"]}})
+    fmt_crosscheck(ctx)
+    ctx.extra["tz_of_implementation_process"] = res.get("tz")
+
+
+def replay(ctx, obj):
+    inp = obj.get("input", {})
+    if "repr" in inp:
+        exp = inp["expected"]
+        c = {"op": inp["op"], "r": inp["repr"], "exp": exp, "tags": ["replay"]}
+        run_conversions(ctx, [c], -12600)
+    else:
+        run_packed(ctx)
+    for v in ctx.violations:
+        print("REPLAY:", v["desc"][:300])
+    if not ctx.violations:
+        print("REPLAY: no violation on this input")
+
+
+READY = False
+LEVEL_TEXT = ""
+LEVEL_NOTE = ""
+TECHNIQUE = "Coq proof over Z (lia + vm_compute era tables) about a hand model and a source-translated model + exhaustive / generated correspondence under a non-UTC TZ"
+DESIGN_REF = "DESIGN.md section 5 C17, section 2.5"
